@@ -3,7 +3,7 @@
    the fixes (D8, D9) and of the remaining known finding (D10). *)
 From Coq Require Import ZArith List Bool Lia ZifyBool.
 From V Require Import Val Bytes BytesLemmas C06Rtp C06NalDepack C06H264Depack C06H265Depack C06AacDepack
-  C06SyncClock C06Demux C06BaseProofs C06NalProofs C06H26xProofs C06AacProofs C06DemuxProofs RunC06.
+  C06SyncClock C06Demux C06BaseProofs C06NalProofs C06H26xProofs C06AacProofs C06DemuxProofs C06PickProofs RunC06.
 Import ListNotations.
 Open Scope Z_scope.
 
@@ -103,6 +103,52 @@ Proof.
   pose proof (model_passes_loss _ _ _ _ _ WF) as H.
   destruct (drun (k_cd k) (k_clock k) dst_init (select (k_mask k) (tevents (k_cd k) (k_seq0 k) 0 (k_items k)))) as [[st fs] pn].
   exact H.
+Qed.
+
+(* both modes: loss mask (exact) and rearrangement (nothing spliced or invented) *)
+Theorem C06_model_passes_all : forall k,
+  case_guard k = true -> let '(fs, pn) := run_case k in ok_case k fs pn = true.
+Proof.
+  intros k G. unfold case_guard in G. destruct (k_mode k =? 0) eqn:M.
+  - apply C06_model_passes_run; auto. lia.
+  - apply andb_true_iff in G as [OK FEW].
+    unfold run_case, ok_case, case_events. rewrite M.
+    pose proof (model_passes_pick (k_cd k) (k_clock k) (k_seq0 k) (k_items k) (k_ix k) OK) as H.
+    destruct (drun (k_cd k) (k_clock k) dst_init (pick (k_ix k) (tevents (k_cd k) (k_seq0 k) 0 (k_items k)))) as [[st fs] pn].
+    apply H. lia.
+Qed.
+
+(* fu_never_spliced at the depacketiser level: packets of one packetisation in
+   ANY order, with repetitions and omissions; whatever comes out is a source unit *)
+Theorem fu_never_spliced_264 : forall seq0 items ix,
+  forallb (item_ok z264) items = true -> Z.of_nat (total_pk items) <= 65536 ->
+  exists st' fs, depack264 st264_init (pick ix (packetize264 seq0 items)) = (st', fs, false) /\
+                 forall f, In f fs -> In f (filter (fun f => keep264 (u_pl f)) (flat_map item_frames items)).
+Proof.
+  intros seq0 items ix OK FEW.
+  destruct (h264_never_spliced seq0 items OK FEW (pick ix (packetize264 seq0 items)) [] (mkW true true true true))
+    as (F' & w' & fs & E & _ & _ & A).
+  - apply Forall_forall. intros p Hp. apply pick_in in Hp.
+    exact (h264_packetize_prov seq0 items items [] p eq_refl Hp).
+  - left. reflexivity.
+  - reflexivity.
+  - exists (mkG F' w'), fs. split; [exact E|exact A].
+Qed.
+
+Theorem fu_never_spliced_265 : forall seq0 items ix,
+  forallb (item_ok z265) items = true -> Z.of_nat (total_pk items) <= 65536 ->
+  exists st' fs, depack265 st265_init (pick ix (packetize265 seq0 items)) = (st', fs, false) /\
+                 forall f, In f fs -> In f (flat_map item_frames items).
+Proof.
+  intros seq0 items ix OK FEW.
+  destruct (h265_never_spliced seq0 items OK FEW (pick ix (packetize265 seq0 items)) [] (mkW true true true true))
+    as (F' & w' & fs & E & _ & _ & A).
+  - apply Forall_forall. intros p Hp. apply pick_in in Hp.
+    exact (h265_packetize_prov seq0 items items [] p eq_refl Hp).
+  - left. reflexivity.
+  - reflexivity.
+  - exists (mkG F' w'), fs. split; [exact E|]. intros f Hf. specialize (A f Hf).
+    unfold allowed, fkeep, keep265 in A. rewrite filter_true in A. exact A.
 Qed.
 
 (* ---- behaviour before the fixes ---- *)
